@@ -51,18 +51,33 @@ c17_thin!(c17_t_thin_b5, 5, 34);
 
 /// thick line claims for a listed (concrete) line and width, symbolic probe q
 pub fn thick_claims(a: Point, b: Point, w: u32, q: Point) {
-    note!("line", (a, b)); note!("width", w);
+    thick_claims_al(a, b, w, StrokeAlignment::Center, q)
+}
+
+/// the same with a stroke alignment set in the style (the claims of C17 do not depend on it)
+pub fn thick_claims_al(a: Point, b: Point, w: u32, al: StrokeAlignment, q: Point) {
+    note!("line", (a, b)); note!("width", w); note!("alignment", al);
     let line = Line::new(a, b);
-    let styled = line.into_styled(PrimitiveStyle::with_stroke(Gray8::new(1), w));
+    let styled = line.into_styled(PrimitiveStyleBuilder::new().stroke_color(Gray8::new(1)).stroke_width(w).stroke_alignment(al).build());
     let mut writes = 0u32;
+    // cross-section through the middle of the thin line along the minor axis (a column for x-major
+    // lines, a row otherwise): its pixel count bounds the perpendicular width from above by a factor
+    // >= 1, so "at least w - 1 wide" implies at least w - 1 pixels in it when the line is not
+    // shorter than it is wide
+    let (adx, ady) = ((b.x - a.x).abs(), (b.y - a.y).abs());
+    let x_major = adx >= ady;
+    let mid = Point::new(a.x + (b.x - a.x) / 2, a.y + (b.y - a.y) / 2);
+    let mut run = 0u32;
     for Pixel(p, _) in styled.pixels() {
         if p == q { writes += 1; }
+        if (x_major && p.x == mid.x) || (!x_major && p.y == mid.y) { run += 1; }
     }
     let mut thin = false;
     for p in line.points() {
         if p == q { thin = true; }
     }
-    note!("writes_at_q", writes); note!("thin_at_q", thin);
+    note!("writes_at_q", writes); note!("thin_at_q", thin); note!("mid_run", run);
+    if w >= 1 && (if x_major { adx } else { ady }) as u32 >= w { check!(run + 1 >= w, "C17.mid_width"); }
     check!(writes <= 1, "C17.no_duplicate");
     if w >= 1 && thin { check!(writes == 1, "C17.contains_thin"); }
     if w == 1 { check!((writes == 1) == thin, "C17.w1_eq_points"); }
@@ -105,6 +120,21 @@ macro_rules! c17_thick_g {
         }
     };
 }
+macro_rules! c17_thick_al_g {
+    ($name:ident, $unw:expr, [$((($ax:expr, $ay:expr), ($bx:expr, $by:expr), $w:expr, $al:ident)),+ $(,)?]) => {
+        #[cfg_attr(kani, kani::proof, kani::unwind($unw))]
+        pub fn $name() {
+            let q = point(6);
+            note!("q", q);
+            $( thick_claims_al(Point::new($ax, $ay), Point::new($bx, $by), $w, StrokeAlignment::$al, q); )+
+            reach!(true, "reach.end");
+        }
+    };
+}
+// wide strokes with a non-default stroke alignment in the style (widths 7-10: a one-sided stroke would
+// leave the w/2 + 2.5 corridor)
+c17_thick_al_g!(c01_c02_c17_q_g_thick_aligned_a, 120, [((0, 0), (6, 0), 8, Inside), ((-2, 3), (1, -4), 9, Outside)]);
+c17_thick_al_g!(c01_c02_c17_q_g_thick_aligned_b, 120, [((0, 0), (5, 3), 10, Inside), ((3, 3), (-3, 0), 7, Outside), ((0, 0), (3, 1), 3, Inside)]);
 // regime G: all octants, horizontal, vertical, diagonal, zero length x widths
 c17_thick_g!(c01_c02_c17_q_g_thick_a, 60, [((0, 0), (5, 2), 3), ((-3, 4), (2, -4), 2), ((2, 2), (2, 2), 3), ((-4, 0), (4, 0), 4), ((0, -3), (0, 3), 1)]);
 c17_thick_g!(c01_c02_c17_q_g_thick_b, 60, [((3, 3), (-3, -3), 3), ((4, -1), (-2, -5), 2), ((-1, -1), (1, 6), 5), ((0, 0), (6, 1), 0)]);
